@@ -4,6 +4,9 @@ Line-protocol driver for the Producer model (C17).
   c17.run  <ignoreOrphan 0|1> <isLlvm 0|1> ARG*   -> ok <items> ; maps=<cids>  |  panic bad-arg | panic no-input
   c17.spec <ignoreOrphan 0|1> <isLlvm 0|1> ARG*   -> the closed form `closed o (arts ..)` of the same layout
 
+  c17.argclass x<argument hex> x<absolute path hex> <isDir 0|1>
+                                                  -> zip | dir | plain | panic bad-ext | panic no-ext
+
   ARG  = d<label>:FILE,FILE,…   directory (files in walk order)
        | z<label>:FILE,FILE,…   zip archive (entries in index order)
        | p:FILE                 plain-file argument
@@ -97,5 +100,22 @@ def handleSpec (ws : List String) : String :=
   match parseReq ws with
   | some (o, args) => showSpec o args
   | none => "bad-op"
+
+def xarg (s : String) : Option (List Nat) :=
+  if s.startsWith "x" then fromHex (s.drop 1).toString else none
+
+def handleArgClass (ws : List String) : String :=
+  match ws with
+  | [p, f, d] =>
+    match xarg p, xarg f, parseBool d with
+    | some p, some f, some d =>
+      match classifyArg p f d with
+      | .zip => "zip"
+      | .dir => "dir"
+      | .plain => "plain"
+      | .panicBadExt => "panic bad-ext"
+      | .panicNoExt => "panic no-ext"
+    | _, _, _ => "bad-op"
+  | _ => "bad-op"
 
 end Grcov.Drv.C17
